@@ -138,7 +138,7 @@ func init() {
 	register(&Info{Prop: "C07", Engine: altEngine{[]Engine{ms, ms, faultsim{}, sizesim{}}}, Level: "exploration", QuickS: 45, ThoroughS: 600, RealStub: real,
 		Rule:   "one evaluation = one seeded program (biased to nested bucket create/delete/move); after every commit and reopen the file is decoded independently and every page below the high-water mark classified; compared with Tx.Check, Stats and Tx.Page. distinct as for C04",
 		Assume: []string{"independent decoder dec/ implements the published v2 layout"}})
-	register(&Info{Prop: "C12", Engine: ms, Level: "exploration", QuickS: 45, ThoroughS: 600, RealStub: real,
-		Rule:   "one evaluation = one seeded program; after every commit and reopen the file bytes are decoded by dec/ (published v2 layout only) and compared with the API dump and the model; plus the golden corpus. distinct as for C04",
-		Assume: []string{"independent decoder dec/ implements the published v2 layout"}})
+	register(&Info{Prop: "C12", Engine: altEngine{[]Engine{ms, ms, foreignsim{}}}, Level: "exploration", QuickS: 45, ThoroughS: 600, RealStub: real,
+		Rule:   "one evaluation = one seeded program; after every commit and reopen the file bytes are decoded by dec/ (published v2 layout only) and compared with the API dump and the model; plus the golden corpus. Every third run index is the foreign-file arm: the content reached by a seeded history is laid out as a version-2 file by an independent writer (dec/enc.go) with layout choices the current writer never makes but the format allows (arbitrary leaf/branch fill, scattered pages with free gaps, freelist page anywhere or absent, several elements on a page with overflow, gaps between element data, small buckets paged or inline, trailing pages beyond the high-water mark, newest meta in either slot); the real code must open it (read-only and read-write under tape-chosen options), dump exactly that content, agree with the independent accounting (Tx.Check, Stats, Tx.Page), and carry a second seeded history with reopenings on it, checked after every commit. distinct as for C04",
+		Assume: []string{"independent decoder dec/ implements the published v2 layout", "the independent encoder is validated against the decoder on every file before the real code sees it (a disagreement is harness trouble, never a verdict)"}})
 }
